@@ -2,7 +2,7 @@
 EXTENDS NotifierDelay
 CONSTANTS Periods, Bodies, MaxWaits
 Inputs == {[e |-> "new", p |-> p] : p \in Periods \cup {999}} \cup {[e |-> "body", b |-> b] : b \in Bodies}
-          \cup {[e |-> "wait"], [e |-> "free"]}
+          \cup {[e |-> "wait"], [e |-> "free"], [e |-> "enter"]}
 MCNext == \E ev \in Inputs : EvNext(ev)
 MCSpec == Init /\ [][MCNext]_nvars
 Bound == k <= MaxWaits /\ now <= (MaxWaits + 3) * 5000 /\ TLCGet("level") <= 3 * MaxWaits + 4
